@@ -34,7 +34,7 @@ JSB = [('magic', 0, 4), ('blocktype', 4, 4), ('blocksize', 12, 4), ('maxlen', 16
        ('feature_compat', 36, 4), ('feature_incompat', 40, 4), ('nr_users', 64, 4), ('csum_type', 0x50, 1), ('checksum', 0xfc, 4)]
 
 POINTER_FIELDS = {'file_acl', 'iblock0', 'iblock1', 'iblock2', 'iblock3', 'iblock5', 'iblock12', 'iblock13', 'iblock14', 'start_lo', 'leaf_lo', 'block_bitmap', 'inode_bitmap', 'inode_table'}
-CLASSES = ['sb', 'gd', 'bbitmap', 'ibitmap', 'inode', 'extent', 'ind', 'dirent', 'dx', 'xattr', 'special', 'jsb', 'bytes', 'blockop', 'dirloop', 'eadup', 'dirmap', 'geom']
+CLASSES = ['sb', 'gd', 'bbitmap', 'ibitmap', 'inode', 'extent', 'ind', 'dirent', 'dx', 'xattr', 'special', 'jsb', 'bytes', 'blockop', 'dirloop', 'eadup', 'dirmap', 'geom', 'blockless']
 KINDS = ['zero', 'ones', 'inc', 'dec', 'bitflip', 'random', 'swap', 'other_block', 'meta_block', 'out_of_range', 'small', 'wrap']
 SUMMARY_CLASSES = ['bbitmap', 'ibitmap', 'gd_counts', 'gd_flags', 'csum_field']
 
@@ -263,9 +263,17 @@ def _apply_one(img, cls, obj, field, kind, val, fixup):
             o = blk * bs + (bit >> 3); c = img.rd(o, 1)[0]; img.wr(o, bytes([c ^ (1 << (bit & 7))]))
         if fixup: img.fix_bitmap(g, 'b' if cls == 'bbitmap' else 'i')
         return '%s[%d] bit %d flipped%s' % (cls, g, bit, ' +csum' if fixup else '')
-    if cls == 'inode' or cls == 'special':
+    if cls == 'inode' or cls == 'special' or cls == 'blockless':
         if cls == 'special':
             cand = [i for i in (7, 8, fs.journal_inum, fs.usr_q, fs.grp_q, fs.prj_q, fs.orphan_inum, 2, 11) if i and i in img.inuse] or img.inuse
+        elif cls == 'blockless':
+            # inodes that have no block map of their own: fast symlinks, device nodes, fifos, sockets, inline-data files (their only block, if any, is an EA block)
+            cand = []
+            for i in img.inuse:
+                if i < fs.first_ino: continue
+                I_ = fs.read_inode(i)
+                if I_.fmt in (0o020000, 0o060000, 0o010000, 0o140000) or (I_.fmt == e4ref.S_IFLNK and I_.size < 60) or (I_.flags & e4ref.FL_INLINE): cand.append(i)
+            if not cand: return None
         else: cand = img.inuse
         ino = cand[obj % len(cand)]; sib = cand[(obj + 1) % len(cand)]
         n, o, v = _field(img, img.ino_off(ino), INO_FIELDS, field, kind, val, img.ino_off(sib))
